@@ -1,4 +1,5 @@
 import Spdc.Real.Auto
+import Spdc.Real.ComposeAutoLemmas
 /-!
 # C04 — auto poling period and auto crystal angle null the longitudinal mismatch
 
@@ -222,5 +223,51 @@ example : optimumPolingPeriod (100 : ℝ) (collinearCost 100) 2e-3 =
 /-- the hypotheses of `theta_in_range` / `nm_result_in_bounds` are satisfiable: `|θ − 0.7|` -/
 example : ∃ θ, optimumTheta (fun x : ℝ => Cost.fin |x - 0.7|) = .ok θ ∧ 0 ≤ θ ∧ θ ≤ π / 2 :=
   theta_in_range _ (fun _ _ _ => by simp) ⟨_, rfl⟩
+
+/-! ## composed model
+
+Above, the cost closures (`|Δk_z|` as a function of the trial period / crystal angle) are
+parameters.  In `Spdc/Model/ComposeAuto.lean` they are built from the composed model — crystal angle
+substituted, signal re-aimed at its external angle through the nested Snell simplex, optimum idler
+recomputed per trial, `Δk_z` from the composed indices — and the optimisers run on them:
+`Compose.optimumThetaB`, `Compose.optimumPolingPeriodB`.  The layer theorems lift with their
+hypotheses on the cost DISCHARGED (over ℝ the composed cost is a real number wherever `λp < λs`). -/
+
+/-- composed model: the composed `optimum_theta` returns a value in `[0, π/2]` whenever `λp < λs`
+(no hypothesis on the cost left: it is NaN-free and finite at the seed `π/6`) -/
+theorem compose_theta_in_range (S : Compose.Setup ℝ) (s p : Beam.Beam ℝ)
+    (h : Beam.vacuumWavelength p < Beam.vacuumWavelength s) :
+    ∃ θ, Compose.optimumThetaB S s p = .ok θ ∧ 0 ≤ θ ∧ θ ≤ π / 2 :=
+  theta_in_range (Compose.thetaCost S s p (Compose.thetaExternal S s))
+    (fun θ _ _ => Compose.thetaCost_ne_nan S s p _ θ h) (Compose.thetaCost_fin S s p _ (π / 6) h)
+
+/-- composed model: a finite period returned by the composed `optimum_poling_period` carries the
+sign of the composed unpoled mismatch `Δk_z` (with its optimum idler), is non-zero, and is shorter
+than the crystal length `(1 − 10⁻⁹)·L`; `+∞` is returned exactly when that mismatch is zero. -/
+theorem compose_period_rules (S : Compose.Setup ℝ) (s p : Beam.Beam ℝ) (v : ℝ)
+    (h : Compose.optimumPolingPeriodB S s p = .ok v) :
+    ∃ z, Compose.dkzOptimum S s p .off = .ok z ∧
+      ((z = 0 ∧ v = Compose.infinity) ∨
+       (z ≠ 0 ∧ (v < 0 ↔ z < 0) ∧ v ≠ 0 ∧ |v| < S.L * (1 - 1e-9))) := by
+  obtain ⟨z, r, hz, hr, rfl⟩ := Compose.optimumPolingPeriodB_ok h
+  refine ⟨z, hz, ?_⟩
+  cases r with
+  | infinite =>
+    left
+    refine ⟨?_, rfl⟩
+    by_contra hne
+    rw [optimumPolingPeriod_of_ne hne] at hr
+    split at hr
+    · split at hr <;> cases hr
+    · cases hr
+    · cases hr
+  | finite w =>
+    right
+    have hs := period_sign z S.L w _ hr
+    have hl := period_le_length z S.L w _ hr
+    refine ⟨?_, hs.1, hs.2, hl.2.1⟩
+    rintro rfl
+    rw [period_infinite_of_zero] at hr
+    cases hr
 
 end Spdc.Props.C04
